@@ -459,7 +459,10 @@ def neighbourhood(prop, case, rnd):
                     break
     if hasattr(prop, "perturb"):
         for _ in range(150):
-            yield prop.perturb(case, rnd)
+            try:
+                yield prop.perturb(case, rnd)
+            except (KeyError, IndexError, ValueError):
+                return
 
 
 def shrink_failure(prop, case, failure, known):
